@@ -23,7 +23,7 @@ import (
 )
 
 var specC07 = report.Spec{Property: "C07", Check: "C07",
-	Rule: "determinism: arbitrary polygons (as C05), valid polygons with 0-3 holes (as C01) and, 1 case in 150 (thorough: 400), a valid star shaped polygon of 520-2600 (thorough: 4000) vertices several hundred pixels wide, 1 case in 500 (thorough 250) a 'sieve' (two lobes, up to 700 / thorough 2400 holes) x grids x 1-4 ids given in random order x flags. Oracle (metamorphic): (a) three in-process repetitions (GOMAXPROCS as started, 1 and 8) return deeply equal maps, what a call returned does not change while another (shifted) polygon is snapped afterwards, and a digest of the output of up to 3000 multi-level/multi-ring cases per run is recomputed by a second process (Go randomises map iteration per range statement and per process) and must be equal; " +
+	Rule: "determinism: arbitrary polygons (as C05), valid polygons with 0-3 holes (as C01) and, 1 case in 100 (thorough: 400), a valid star shaped polygon of 520-2600 (thorough: 4000) vertices (half of them 2048 and more) several hundred pixels wide, 1 case in 500 (thorough 250) a 'sieve' (two lobes, up to 700 / thorough 2400 holes) x grids x 1-4 ids given in random order x flags. Oracle (metamorphic): (a) three in-process repetitions (GOMAXPROCS as started, 1 and 8) return deeply equal maps, what a call returned does not change while another (shifted) polygon is snapped afterwards, and a digest of the output of up to 3000 multi-level/multi-ring cases per run is recomputed by a second process (Go randomises map iteration per range statement and per process) and must be equal; " +
 		"(b) valid polygons: for every non-empty subset of rings (more than 6 rings: all, every second, every third, the shell only) given in the opposite direction the output is deeply equal (rings without orientation - one or two vertices or exactly zero area - may come back in either direction); (c) valid polygons: toggling ReverseWindingOrder yields the same tile matrices, polygons and rings in the same positions, each ring with >= 3 vertices being the reverse (as a cyclic sequence) of its counterpart, 1-2 vertex rings equal as sets; " +
 		"(d) the same polygon with all rings laid out as consecutive windows of one coordinate buffer (spare capacity of each ring reaching into the next) returns deeply equal geometry and leaves the buffer, including sentinel slots behind the last ring, untouched; " +
 		"(e) 1 case in 8: 24 repetitions spread over 6 goroutines running at the same time (valid polygons: alternating with the all-rings-reversed writing) return the geometry of the call that ran alone. " +
@@ -42,7 +42,11 @@ func bigStarCase(t *rapid.T) SnapCase {
 	c.IDs = gen.IDs(t, g, 3, min(maxAddressableID(g), 16))
 	c.Flags = gen.DrawFlags(t)
 	c.Flags.Ignore = false
-	ring, _ := gen.BigStar(t, rapid.IntRange(520, report.Scale(2600, 4000)).Draw(t, "bigN"))
+	bigN := rapid.IntRange(520, 2047).Draw(t, "bigN")
+	if rapid.Bool().Draw(t, "bigger") { // (2048 is a likely size for pooled or pre-sized buffers; rapid's ranges favour their lower end)
+		bigN = rapid.IntRange(2048, report.Scale(2600, 4000)).Draw(t, "biggerN")
+	}
+	ring, _ := gen.BigStar(t, bigN)
 	if poly, anchor, ok := placeShape(t, g, c.IDs, [][]P{ring}, 4); ok {
 		c.Poly, c.Anchor = poly, anchor
 	}
@@ -50,7 +54,7 @@ func bigStarCase(t *rapid.T) SnapCase {
 }
 
 func genC07(t *rapid.T) C07Case {
-	if rapid.IntRange(0, report.Scale(150, 400)).Draw(t, "big") == 37 { // (rapid favours small values: pick one from the middle)
+	if rapid.IntRange(0, report.Scale(100, 400)).Draw(t, "big") == 37 { // (rapid favours small values: pick one from the middle)
 		return C07Case{SnapCase: bigStarCase(t), Valid: true}
 	}
 	if rapid.IntRange(0, report.Scale(500, 250)).Draw(t, "sieve") == 113 {
